@@ -106,11 +106,11 @@ Definition more_ok (more : list (tok * sparam)) : Prop :=
   Forall (fun cq => tty (fst cq) = TComma /\ sp_ok (snd cq)) more.
 
 Lemma sep_list_rec_params ptype cb y c : type_basic_ok ptype -> tty cb = TCBracket ->
-  forall more q fuel acc, sp_ok q -> more_ok more -> (length more < fuel)%nat ->
-  sep_list_rec fuel (parse_parameter_declaration ptype) TComma acc (plist_toks q more ++ cb :: y) c =
+  forall more q fuel prev acc, sp_ok q -> more_ok more -> (length more < fuel)%nat ->
+  sep_list_rec fuel (parse_parameter_declaration ptype) TComma prev acc (plist_toks q more ++ cb :: y) c =
   (Ok (cb :: y) (rev acc ++ sp_node q :: map (fun cq => sp_node (snd cq)) more), c).
 Proof.
-  intros Hpt Hcb. induction more as [|[cm q'] more IH]; intros q fuel acc Hq Hm Hf;
+  intros Hpt Hcb. induction more as [|[cm q'] more IH]; intros q fuel prev acc Hq Hm Hf;
     (destruct fuel as [|f]; [simpl in Hf; lia|]); cbn [sep_list_rec plist_toks].
   - rewrite app_nil_r. rewrite param_ok; [|assumption|assumption|right; exact Hcb].
     rewrite exp_token_miss_next; [|reflexivity|].
@@ -137,7 +137,7 @@ Proof.
     rewrite <- app_assoc. cbn [app].
     rewrite param_ok; [|assumption|assumption|left; exact Hcm].
     rewrite exp_token_hit by exact Hcm.
-    rewrite (sep_list_rec_params ptype cb y c Hpt Hcb more q' _ [sp_node q] Hq' Hm').
+    rewrite (sep_list_rec_params ptype cb y c Hpt Hcb more q' _ cm [sp_node q] Hq' Hm').
     + reflexivity.
     + rewrite app_length. simpl. pose proof (app_length (plist_toks q' more) (cb :: y)).
       assert (length more <= length (plist_toks q' more))%nat.
